@@ -48,7 +48,45 @@ def event_for(cls, obj, origin):
             'cls': type(obj).__name__}
 
 
+def _alt_scsv(obj, origin, ab):
+    if ab is not None and ab[0] == 'client_hello' and (ab[1]['fallback_scsv'] or ab[1]['empty_renegotiation_info_scsv']) and ab[1]['cipher_suites']:
+        kind, a = ab
+        out, wire, _ = call(lambda o: o.compose(), obj)
+        if out != 'ok':
+            return []
+        wire = bytes(wire)
+        off = 4 + 2 + 32
+        off += 1 + wire[off]
+        ln = int.from_bytes(wire[off:off + 2], 'big')
+        codes = wire[off + 2:off + 2 + ln]
+        k = 2 * (int(bool(a['fallback_scsv'])) + int(bool(a['empty_renegotiation_info_scsv'])))
+        markers = codes[len(codes) - k:]
+        pairs = [markers[i:i + 2] for i in range(0, len(markers), 2)]
+        alt = wire[:off + 2] + b''.join(reversed(pairs)) + codes[:len(codes) - k] + wire[off + 2 + ln:]
+        o2, res, _ = call(type(obj).parse_immutable, alt)
+        back_same, n = False, 0
+        if o2 == 'ok':
+            try:
+                b = wire_tls.message_abs(res[0])
+                n = res[1]
+                # the parser lifts the signalling values out of the list wherever they stand: flags set, list without them
+                back_same = b is not None and b[0] == kind and json.dumps(b[1], sort_keys=True) == json.dumps(norm(a), sort_keys=True)
+            except Exception:  # pylint: disable=broad-except
+                back_same = False
+        return [{'ev': 'alt', 'form': 'scsv-first', 'kind': kind, 'abs': a, 'pad': 0, 'wire': list(alt), 'parse': o2, 'n': n,
+                 'back_same': back_same, 'origin': origin + ':scsv-first', 'cls': type(obj).__name__}]
+    return []
+
+
 def alt_events(obj, origin):
+    try:
+        ab0 = wire_tls.message_abs(obj)
+    except Exception:  # pylint: disable=broad-except
+        ab0 = None
+    return _alt_scsv(obj, origin, ab0) + _alt_other(obj, origin)
+
+
+def _alt_other(obj, origin):
     """SSL 2.0 records in the three-byte-header form with padding: built here from the library's two-byte form, checked by
     TLC to be the specified encoding of the same abstract value, then given to the parser"""
     try:
@@ -347,6 +385,7 @@ def collect(rep, thorough):
         e = event_for(type(o), o, 'random')
         if e:
             events.append(e)
+        events += alt_events(o, 'random')
     return events
 
 
